@@ -14,13 +14,13 @@ from .scripted_random import scripted_model
 
 PROP = "C03"
 DRIVER = "drv_agents"
-LEAN_MODULES = ["MesaModel.Props.C03"]
+LEAN_MODULES = ["MesaModel.Props.C03", "MesaModel.Props.C18Agents"]
 THEOREMS = ["Mesa.ASet." + t for t in (
     "C03_select_is_filter_take", "C03_select_limit_bounds", "C03_sort_perm_ordered_stable", "C03_shuffle_is_permutation",
     "C03_groupby_partitions_in_order", "C03_constructor_is_ordered_set", "C03_add_discard_remove",
     "C03_len_iter_contains_getitem_agree", "C03_no_duplicates_all_histories",
     "C03_inplace_equals_copy_and_copy_preserves", "C03_get_set_agg_map_list_semantics")]
-COUNTS = {"quick": 800, "thorough": 16000}
+COUNTS = {"quick": 1000, "thorough": 40000}
 TRUSTED = [
     "CPython dict / WeakKeyDictionary insertion order; sorted() is a stable sort and reverse=True keeps the order of equal keys (the model uses List.mergeSort)",
     "select(at_most=float): the count int(len*f) is computed on IEEE doubles; the driver recomputes it with Lean Float (same operations), the theorems take the count as a parameter",
